@@ -287,6 +287,9 @@ def leaf(rng, fam, ctr, allow_nested=True):
             a = rng.choice([{'agg': 'first'}, {'agg': 'count'}, {'agg': 'flatten'}, {'agg': 'flatten', 'f': fn('ident')},
                             {'agg': 'sum', 'f': fn('len')}, {'agg': 'count'}])
         return {'k': 'agg', 'oid': ctr.next(), 'a': a}
+    if fam == 'seq' and allow_nested and rng.random() < 0.35:
+        inner = gen_spec(rng, 'int', ctr, rng.choice([0, 0, 1]), top=True, allow_nested=False)
+        return {'k': 'nested', 'g': inner}
     if c < 0.96 or fam != 'seq' or not allow_nested:
         f = val_fn(rng, fam)
         if f['fn'] in ('skip_odd', 'skip_if'):
@@ -506,8 +509,54 @@ def classify(case, verdict):
     return shape or None
 
 
+H2_FNS = ('id_of', 'id_if', 'obj_if')
+
+
+def known_features(s, below=False):
+    """does the spec carry what the two known defects need (a key function returning an id /
+    a spec object; a STOP source under a key level)?"""
+    k = s['k']
+    if k == 'dict':
+        return s['key']['fn'] in H2_FNS or (s['key']['fn'] == 'stop_at' and below) or known_features(s['sub'], True)
+    if k == 'limit':
+        return below or known_features(s['sub'], below)
+    if k == 'agg':
+        return below and s['a']['agg'] == 'first'
+    if k in ('list', 'fn'):
+        return below and s['f']['fn'] == 'stop_at'
+    if k == 'nested':
+        return known_features(s['g'], False)
+    return False
+
+
+def strip_features(s, below=False):
+    s = dict(s)
+    k = s['k']
+    if k == 'dict':
+        if s['key']['fn'] in H2_FNS or s['key']['fn'] == 'stop_at':
+            s['key'] = fn('ident')
+        s['sub'] = strip_features(s['sub'], True)
+    elif k == 'limit':
+        if below:
+            return strip_features(s['sub'], below)
+        s['sub'] = strip_features(s['sub'], below)
+    elif k == 'agg' and below and s['a']['agg'] == 'first':
+        s['a'] = {'agg': 'count'}
+    elif k in ('list', 'fn') and below and s['f']['fn'] == 'stop_at':
+        s['f'] = fn('ident')
+    elif k == 'nested':
+        s['g'] = strip_features(s['g'], False)
+    return s
+
+
 def shrink(case):
     base = {k: v for k, v in case.items() if not k.startswith('impl')}
+    if known_features(case['spec']):
+        # first get rid of what the two KNOWN defects need; while it is there, do not shrink further
+        # (a greedy shrinker would drift from a new failure into a known one)
+        c = dict(base); c['spec'] = strip_features(case['spec'])
+        yield c
+        return
     runs = case['runs']
     for i in range(len(runs)):
         if len(runs) > 1:
